@@ -19,6 +19,7 @@ RULE = ('Finite doubles: Hypothesis floats, uniform random 64-bit patterns, ever
         'Non-trivial: x is non-integral, >= 1e16 or < 1e-4 in magnitude (exponent forms), or the string is a near-miss; distinct by value/text.')
 RULE += ' Also: integral numbers as the library hands them to a script (mathFloor, mathCeil, numberParseInt, jsonParse, mathAbs, mathMax), magnitudes up to 1e308.'
 RULE += ' Round 7: texts padded to 4 290-9 000 characters (leading zeros, surrounding blanks, trailing fraction zeros); numberParseInt of any decimal text with a fraction point or an exponent must be null; parseInt / parseFloat called under their expression names must agree with the script functions.'
+RULE += ' Round 8: an underscore at either end of / doubled inside a number text, a radix prefix followed by a sign, a blank or another prefix (null in every radix).'
 ASSUMPTIONS = [
     'CPython float repr is the shortest round-trip representation (trusted)',
     'Python-specific leniencies of float()/int() (underscores, non-ASCII digits, surrounding white space) are not asserted either way',
